@@ -70,6 +70,7 @@ for ev in hist:
         elif kind == 'touch':
             # rewrite a theory file with one item removed (modification between loads)
             p = os.path.join(repo, 'library', ev[1] + '.json')
+            mtime_before = os.stat(p).st_mtime
             data = json.load(open(p, encoding='utf-8'))
             removed = None
             for i in reversed(range(len(data['content']))):
@@ -78,7 +79,10 @@ for ev in hist:
                     break
             json.dump(data, open(p, 'w', encoding='utf-8'))
             st = os.stat(p)
-            os.utime(p, (st.st_atime + 5, st.st_mtime + 5))
+            shift = ev[2] if len(ev) > 2 else 5
+            # relative to the time stamp the file had when it was read (a negative shift = an older revision restored)
+            base = max(st.st_mtime, mtime_before) if shift > 0 else mtime_before
+            os.utime(p, (base + shift, base + shift))
             out['events'].append(['touch', ev[1], removed.get('name') if removed else None])
         elif kind == 'break_item':
             # make the statement of the named theorem unparsable (as while it is being edited)
@@ -221,6 +225,18 @@ def run(tier='quick', seed=0):
                                            'differs from a fresh load of the modified file (sizes %s vs %s)' % (
                                                removed[0][2], res4.get('sizes'), res2.get('sizes')),
                                    'history': 'load logic; modify logic.json; load logic'})
+        # (1a') the file is replaced by content with an EARLIER modification time (an older revision restored)
+        shutil.rmtree(os.path.join(scratch, 'library'))
+        shutil.copytree(os.path.join(REPO, 'library'), os.path.join(scratch, 'library'))
+        warm_b = _run_hist(scratch, [['load', 'logic', None], ['touch', 'logic', -3600], ['load', 'logic', None]])
+        fresh_b = _run_hist(scratch, [['load', 'logic', None]])
+        evals += 2
+        if not str(fresh_b['digest']).startswith(('EXC', 'CRASH', 'TIMEOUT')) and warm_b['digest'] != fresh_b['digest']:
+            violations.append({'function': 'logic.basic.load_theory_cache', 'clause': 'changed-file-reread',
+                               'what': 'logic.json replaced by other content with an earlier time stamp between two loads: '
+                                       'the second load differs from a fresh load (sizes %s vs %s)' % (
+                                           warm_b.get('sizes'), fresh_b.get('sizes')),
+                               'history': 'load logic; replace logic.json (mtime - 1 h); load logic'})
         # (1b) a changed IMPORT is re-read: load set (imports logic), modify logic.json, load set again
         shutil.rmtree(os.path.join(scratch, 'library'))
         shutil.copytree(os.path.join(REPO, 'library'), os.path.join(scratch, 'library'))
